@@ -11,7 +11,7 @@ cd "$WT" && git apply "$PATCH" || { echo "patch does not apply"; git -C /repo wo
 cd /verif
 for id in "$@"; do
   out=$(VERIF_REPO="$WT" ./check "$id" 2>&1); rc=$?
-  echo "$out" | grep -E "VIOLATION|KNOWN-FINDING|ERROR|done:" | sed "s/^/[$id rc=$rc] /"
+  echo "$out" | grep -E "VIOLATION|KNOWN-FINDING|ERROR|done:" | sed "s/^/[$id rc=$rc] /"; echo "$out" | grep -qE "done:|VIOLATION" || echo "$out" | tail -15
 done
 H=$(python3 -c "import hashlib,os,sys;print(hashlib.sha1(os.path.realpath(sys.argv[1]).encode()).hexdigest()[:8])" "$WT")
 git -C /repo worktree remove --force "$WT"
